@@ -200,6 +200,37 @@ def run_a1(case, ctx):
       ctx.violation({"part": "A", "kind": "parse_depends_on_history"},
                     "%s parsed again after an extra-parameter parse and in-place edits -> args=%r kwargs=%r, Python gives %r %r" % (
                         txt, g3[0], g3[1], want[0], want[1]), {"text": txt})
+  # ---- the library's own number-list form (blank-separated, keyword position): one and two lists per call
+  for j in range(12):
+    n_lists = 1 + (j % 2)
+    items, want_kw = [], {}
+    pos = [str(rnd.randint(0, 9))] if rnd.random() < 0.5 else []
+    names = ["scale_axis", "elements_per_scale", "zz", "a"]
+    rnd.shuffle(names)
+    for li in range(n_lists):
+      vals = [rnd.randint(0, 4) for _ in range(rnd.randint(2, 3))]
+      items.append((names[li], "[" + " ".join(str(v) for v in vals) + "]"))
+      want_kw[names[li]] = vals
+    if rnd.random() < 0.7:
+      v = round(rnd.uniform(0, 4), 2)
+      items.insert(rnd.randint(0, len(items)), ("b", repr(v)))
+      want_kw["b"] = v
+    txt = "stub(" + ",".join(pos + ["%s=%s" % kv for kv in items]) + ")"
+    ctx.count("A1.space_list_strings")
+    ctx.evals(1)
+    rec = Recorder()
+    try:
+      safe_eval(txt, {"stub": rec})
+      got = rec.calls[0]
+    except Exception as e:  # pylint: disable=broad-except
+      ctx.violation({"part": "A", "kind": "rejects_valid_call", "literal": "space_list", "exc": type(e).__name__},
+                    "%s -> %s: %s" % (txt, type(e).__name__, str(e)[:100]), {"text": txt})
+      continue
+    okk = [int(p_) for p_ in pos] == got[0] and set(got[1]) == set(want_kw) and all(same(got[1][k], want_kw[k]) for k in want_kw)
+    if not okk:
+      ctx.violation({"part": "A", "kind": "arguments_differ_from_python", "literal": "space_list_x%d" % n_lists},
+                    "%s -> args=%r kwargs=%r, expected args=%r kwargs=%r" % (txt, got[0], got[1], [int(p_) for p_ in pos], want_kw),
+                    {"text": txt})
   # malformed order must be rejected
   for j in range(20):
     txt = gtext.misordered(rnd, gtext.CORE)
